@@ -30,6 +30,13 @@ receiver `x.field` where every struct field of that name has a type defined outs
 `Type::g` goes to the associated functions of `Type` (none when `Type` is defined outside the scope, all of that
 name when it is a generic parameter); `Self::g` to those of the surrounding impl.
 
+A guard only protects the calls made while its increment is in force.  References that sit before the first
+increment, or after a decrement (up to the next increment; up to the end of the block if the block returns; plus
+the start of an enclosing loop body that does not increment again) are attributed to an extra UNGUARDED copy of
+the function (`f (counter restored)`), called by every caller of f: a restore placed before a later recursive
+call therefore leaves a cycle without guard and `guards_cut_all_cycles` evaluates to false.  This is textual
+(block structure, not control flow): `?` early exits and `break`/`continue` are not followed.
+
 Anything unexpected (unbalanced braces, a counter used in a shape not understood, a known guard function that
 disappeared) raises TranslateError: a broken tie, reported by the check."""
 import os, re, sys, glob
@@ -360,6 +367,11 @@ def analyse(repo):
         imports[rel] = imp
 
     edges = set()
+    occ = {}            # (caller, callee) -> positions of the references in the caller's body
+
+    def add_edge(a_, b_, pos_):
+        edges.add((a_, b_))
+        occ.setdefault((a_, b_), []).append(pos_)
     for nd in nodes:
         body = nd["body"]
         rel = nd["file"]
@@ -404,7 +416,7 @@ def analyse(repo):
                     rtys = receiver_types(nd, body, vm.group(1))
                 for t in by_name.get(g, []):
                     if t["method"] and (rtys is None or t["impl_type"] in rtys):
-                        edges.add((nd["id"], t["id"]))
+                        add_edge(nd["id"], t["id"], m.start())
                 continue
             if prev2 == "::":
                 # path: Seg::g
@@ -413,19 +425,19 @@ def analyse(repo):
                 for t in by_name.get(g, []):
                     if seg is None:
                         if t["assoc"]:
-                            edges.add((nd["id"], t["id"]))
+                            add_edge(nd["id"], t["id"], m.start())
                     elif seg == "Self":
                         if t["assoc"] and (nd["impl_type"] is None or t["impl_type"] == nd["impl_type"]):
-                            edges.add((nd["id"], t["id"]))
+                            add_edge(nd["id"], t["id"], m.start())
                     elif seg[0].isupper():
                         # Type::g — associated functions of that type; a trait name or a generic parameter
                         # (not a type of the scope) may stand for any type
                         generic = bool(re.fullmatch(r"[A-Z][0-9]?", seg)) or \
                             bool(re.search(r"<[^{]*\b%s\b" % re.escape(seg), nd["header"]))
                         if t["assoc"] and (t["impl_type"] == seg or (seg not in type_names and generic)):
-                            edges.add((nd["id"], t["id"]))
+                            add_edge(nd["id"], t["id"], m.start())
                     elif not t["assoc"] and in_module(t, seg, crate):
-                        edges.add((nd["id"], t["id"]))
+                        add_edge(nd["id"], t["id"], m.start())
                 continue
             if nxt.startswith(":") and not nxt.startswith("::") and not is_call:
                 continue                          # field initialiser / type ascription
@@ -436,9 +448,10 @@ def analyse(repo):
             if local_alias:
                 targets |= local_alias
             for t in targets:
-                edges.add((nd["id"], t))
+                add_edge(nd["id"], t, m.start())
     # guards
     guards = []
+    after_restore = {}      # guarded function -> callees referenced where its increment is not in force
     for nd in nodes:
         body = nd["body"]
         # nested functions are nodes of their own: do not attribute their guard to the enclosing function
@@ -469,6 +482,10 @@ def analyse(repo):
                     raise TranslateError("function %s: %s is not checked right after its increment" % (nd["name"], cname))
                 order = "increment_then_check"
             guards.append((nd["id"], cls, order))
+            covered = coverage(inner, incs, decs)
+            unc = sorted({t_ for (f_, t_), qs in occ.items() if f_ == nd["id"] and any(not covered(q) for q in qs)})
+            if unc:
+                after_restore[nd["id"]] = sorted(set(after_restore.get(nd["id"], [])) | set(unc))
     for nd in nodes:
         body = nd["body"]
         if not re.search(r"\binclude_depth\b", nd["header"]):
@@ -480,8 +497,13 @@ def analyse(repo):
         passes = re.findall(r"\binclude_depth\s*\+\s*1\b", body)
         if chk:
             # every other use after the check passes `include_depth + 1` (or the value unchanged) to a callee
-            if not passes or any(u < chk.start() for u in uses if u != chk.start() + body[chk.start():].index("include_depth")):
+            chk_use = chk.start() + body[chk.start():].index("include_depth")
+            if not passes or any(u < chk.start() for u in uses if u != chk_use):
                 raise TranslateError("function %s: include_depth used before its limit check" % nd["name"])
+            # the function that checks must hand `include_depth + 1` to everything it calls
+            if any(not re.match(r"include_depth\s*\+\s*1\b", body[u:]) for u in uses if u > chk_use):
+                raise TranslateError("function %s: include_depth passed on without `+ 1` after its limit check"
+                                     % nd["name"])
             guards.append((nd["id"], 3, "parameter_check"))
         elif re.search(r"include_depth\s*(-|\*|=[^=])", body):
             raise TranslateError("function %s changes include_depth in a way that is not understood" % nd["name"])
@@ -490,14 +512,61 @@ def analyse(repo):
                      "add_component"):
         if expected not in names:
             raise TranslateError("recursion guard of `%s` not found (source changed shape?)" % expected)
-    return nodes, sorted(edges), guards
+    return nodes, sorted(edges), guards, after_restore
+
+
+def enclosing_block(s, p):
+    """(start, end) of the innermost `{ .. }` around position p (end = index just after the closing brace)"""
+    depth = 0
+    i = p
+    while i >= 0:
+        if s[i] == "}":
+            depth += 1
+        elif s[i] == "{":
+            if depth == 0:
+                return i, match_brace(s, i)
+            depth -= 1
+        i -= 1
+    return 0, len(s)
+
+
+def coverage(inner, incs, decs):
+    """Where in the body of a guarded function is its increment in force?  Returns covered(position).
+    Not in force: before the first increment; after a decrement, up to the next increment (textually), or only up
+    to the end of the enclosing block when that block returns; and, when the decrement sits in a loop whose body
+    does not increment again before it, the beginning of the loop body (next iteration)."""
+    n = len(inner)
+    unc = [(0, min(incs))]
+    loops = []
+    for m in re.finditer(r"\b(loop|while|for)\b[^{;]*\{", inner):
+        loops.append((m.end() - 1, match_brace(inner, m.end() - 1)))
+    for p in decs:
+        bs, be = enclosing_block(inner, p)
+        if re.search(r"\breturn\b", inner[p:be]):
+            unc.append((p, be))
+            continue
+        unc.append((p, min([i for i in incs if i > p], default=n)))
+        for lb, le in loops:
+            if lb < p < le and not any(lb < i < p for i in incs):
+                unc.append((lb, p))
+    return lambda q: not any(a_ <= q < b_ for a_, b_ in unc)
 
 
 def coq_string(s):
     return '"' + s.replace('"', '""') + '"'
 
 
-def render(nodes, edges, guards):
+def render(nodes, edges, guards, after_restore=None):
+    # A guarded function that refers to callees while its increment is not in force (before the increment, after
+    # the restore) is split: the guarded node keeps all its edges, and a second, UNGUARDED node `f (restored)`
+    # gets the edges to those callees and is called by everyone who calls f.
+    nodes = list(nodes)
+    edges = list(edges)
+    for f, targets in sorted((after_restore or {}).items()):
+        nid = len(nodes)
+        nodes.append({"id": nid, "file": nodes[f]["file"], "name": nodes[f]["name"] + " (counter restored)"})
+        callers = [a for a, b in edges if b == f]
+        edges += [(a, nid) for a in callers] + [(nid, t) for t in targets]
     adj = {}
     for a, b in edges:
         adj.setdefault(a, []).append(b)
@@ -525,8 +594,8 @@ def render(nodes, edges, guards):
 
 
 def main(repo, out):
-    nodes, edges, guards = analyse(repo)
-    txt = render(nodes, edges, guards)
+    nodes, edges, guards, after_restore = analyse(repo)
+    txt = render(nodes, edges, guards, after_restore)
     try:
         if open(out).read() == txt:
             return False
@@ -553,7 +622,9 @@ if __name__ == "__main__":
     if len(sys.argv) > 2:
         main(repo, sys.argv[2])
     else:
-        nodes, edges, guards = analyse(repo)
+        nodes, edges, guards, after_restore = analyse(repo)
         print(len(nodes), "functions", len(edges), "edges")
+        for f, ts in after_restore.items():
+            print("outside the increment of", nodes[f]["name"], ":", [nodes[t]["name"] for t in ts])
         for g, c, o in guards:
             print("guard", nodes[g]["file"], nodes[g]["name"], c, o)
